@@ -154,6 +154,12 @@ class Source:
             elif isinstance(st, (ast.Assign, ast.AnnAssign)):
                 targets = st.targets if isinstance(st, ast.Assign) else [st.target]
                 for t in targets:
+                    if isinstance(t, ast.Name) and isinstance(st.value, ast.Lambda) and len(targets) == 1:
+                        # name = lambda ...: a function by another spelling
+                        key = 'smartquery.%s:%s' % (m, t.id)
+                        self.funcs[key] = FuncInfo(key, m, t.id, st.value)
+                        g[t.id] = ('func', key)
+                        continue
                     if isinstance(t, ast.Name) and st.value is not None:
                         g[t.id] = ('const', st.value)
                         if m == 'functions' and t.id == 'FUNCTIONS' and isinstance(st.value, ast.Dict):
